@@ -1,4 +1,5 @@
 import SlocModel.Props.C09
+import SlocModel.Props.C11
 /-!
   C09 — "updating again without project changes — with or without the existing baseline loaded —
   yields the same baseline".
@@ -112,5 +113,22 @@ theorem update_new_idempotent (rs : List Res) (b0 : Base) :
   apply foldl_new_fixed
   intro r hr hv hk
   exact foldl_new_records rs _ r hr hv hk
+
+/-- **an update is never cut short**: with `--update-baseline` fail-fast is off, so every file
+    is processed and an `all` update records every violating recordable result of the project
+    state, whatever the flag or the configuration says about fail-fast -/
+theorem update_run_records_everything (ff : Bool) (f : Flags) (m : UpdateMode)
+    (hu : f.update = some m) (files : List Res) (mask : List Bool)
+    (hlen : mask.length = files.length)
+    (hadm : effectiveFailFast ff f = false → mask.all id = true)
+    (r : Res) (hr : r ∈ files) (hv : r.violating = true) (hk : r.kind ≠ .otherStructure)
+    (existing : Option Base) :
+    (update .all (processed files mask) existing).contains r.path = true := by
+  have hoff : effectiveFailFast ff f = false := by simp [effectiveFailFast, hu]
+  have hall := hadm hoff
+  have hp : processed files mask = files :=
+    SlocModel.Props.C11.no_ff_deterministic files mask hlen hall
+  rw [hp]
+  exact update_all_records files existing r hr hv hk
 
 end SlocModel.Props.C09
